@@ -12,6 +12,11 @@ CHECKS = {
         text="Every case of a finite, explicitly bounded input space (filter x receiver x argument tuples from a boundary-value universe, operator/tag forms x value pairs, all strings of <=N lexical fragments, all expression-token sequences of <=N tokens in every argument position, the one-edit neighbourhood of the repository's own test templates) is parsed and rendered by the real engine in isolated worker processes; any panic, process death, hang, empty or unusable error is a violation. Totality is a universally quantified claim over inputs, so exhaustive enumeration inside a stated bound is the strongest decision this family offers; outside the alphabets nothing is claimed.",
         note="Trusts: Go runtime recover semantics; the 120 s per-case hang detector (cases take microseconds); universe and alphabets of DESIGN.md 3.1/3.2. Ranges that are iterated are restricted to +-1000.",
         tech="bounded exhaustive input enumeration (boundary-value matrix + all strings/token sequences up to length N) executed on the implementation in sharded worker processes"),
+    "C09": dict(
+        cat="model_checking", ref="4/C09",
+        text="A one-step reference model of the documented value rules (exact rational numbers, bytewise strings, nil/unlike-kind rules, element-wise arrays) is compared with the real engine on every ordered pair of a ~130-value universe (every kind, every numeric width, boundary magnitudes) under all 7 operators, as variables and as literals; independently the coherence laws (!= is not ==, > is swapped <, <= is < or ==, reflexivity, symmetry) are checked on the implementation's own answers, and every and/or expression with <=3 operators (chains and fully parenthesised trees) over 8 truthiness values is evaluated. Every model transition is validated against the implementation.",
+        note="Reference model mc/ref (imports nothing from /repo). Left unspecified by the statement and therefore only checked for coherence and never-fails: map==map, ordering of booleans/arrays/maps, contains on scalars, non-string needle in a string.",
+        tech="exhaustive pair-universe x operator enumeration against a reference model, plus algebraic laws on the implementation's own outputs"),
 }
 
 NOT_YET = "check not built yet (work in progress; see DESIGN.md section 7 build order)"
